@@ -10,6 +10,7 @@
 -/
 import EscProofs.P.C12
 import EscProofs.P.C07
+import EscProofs.P.C06
 namespace Esc.P
 open Esc Esc.Spec
 
@@ -405,6 +406,28 @@ theorem C07_on_top_of_reported (l : List Asg) (id : String) (g : PGroup) (hf : F
     ∃ a ∈ l, a.name = id ∧ ∀ e ∈ (increaseSize o k cfg g d).j, ∀ gid v, e.call = .setDesired gid v → v = a.desired + d := by
   obtain ⟨hm, hn⟩ := hf hex
   exact ⟨g.asg, hm, hn, fun e he gid v hc => (C07_on_top o k cfg g d e he).1 gid v hc⟩
+
+/-- **C02, within the scan itself.** In a scan that decides to scale up, whatever is asked of the cloud comes last: the
+    journal of the acting half is `mj ++ force batch ++ untaint attempts ++ increase`, so after the call that gets the
+    increase accepted the scan makes no further change to the group (no taint, untaint, termination, deletion). -/
+theorem C02_increase_is_last (o : Oracle) (k : Nat) (cfg : GroupCfg) (st : GState) (g : PGroup) (pods : List Pod)
+    (h : Hints) (nowMock nowReal : Int) (untainted tainted force : List Node) (mj : Journal) (delta : Int) (hd : delta > 0)
+    (hf : (tryDelete o k g (forceCands false pods force)).val.err ≠ .notInGroup)
+    (hall : ∀ c ∈ tainted, hasTaint escKey c = true) :
+    let f := tryDelete o k g (forceCands false pods force)
+    let u := scaleUpUntaint o f.k false st h.new tainted delta
+    (scanAct o k false cfg st g pods h nowMock nowReal untainted tainted force mj delta).j = mj ++ f.j ++ u.j ∨
+    ∃ add, (scanAct o k false cfg st g pods h nowMock nowReal untainted tainted force mj delta).j =
+      mj ++ f.j ++ u.j ++ (increaseSize o u.k cfg.aws f.val.g add).j := by
+  intro f u
+  have hshape := C06_up_shape o k false cfg st g pods h nowMock nowReal untainted tainted force mj delta hd hf
+  obtain ⟨_, _, _, hj⟩ := C07_remainder o f.k cfg st f.val.g nowReal h.new tainted delta (by omega) hall
+  rcases hj with hj | ⟨_, _, hj⟩
+  · left; rw [hshape, hj]
+  · right
+    refine ⟨nodesToAdd (delta - (scaleUpUntaint o f.k false st h.new tainted delta).val.count) f.val.g.asg.desired st.maxEff f.val.g.asg.max, ?_⟩
+    rw [hshape, hj]
+    simp only [f, u, List.append_assoc]
 
 /-- Non-vacuity: a provider that remembers desired size 3 for `asg0` and is told 7 by the cloud starts the scan from 7. -/
 example :
